@@ -49,11 +49,15 @@ def parse_logged(text, want=None, path_mode=None):
     """Parse with a log capture.  Returns (kind, chart|exception, log records)."""
     load_impl()
     from chartparse.chart import Chart
+    import warnings
     h = LogCapture()
     lg = logging.getLogger("chartparse")
     old = lg.level
     lg.addHandler(h)
     lg.setLevel(logging.DEBUG)
+    wctx = warnings.catch_warnings(record=True)
+    wlist = wctx.__enter__()
+    warnings.simplefilter("always")
     try:
         try:
             if path_mode is None:
@@ -72,12 +76,18 @@ def parse_logged(text, want=None, path_mode=None):
                     val = Chart.from_filepath(Path(p), want_tracks=want)
                 finally:
                     os.unlink(p)
-            return "chart", val, h.records
+            return "chart", val, h.records + _as_records(wlist)
         except Exception as e:  # noqa: BLE001
-            return "raise", e, h.records
+            return "raise", e, h.records + _as_records(wlist)
     finally:
+        wctx.__exit__(None, None, None)
         lg.removeHandler(h)
         lg.setLevel(old)
+
+
+def _as_records(wlist):
+    """a report made through the warnings module counts like a WARNING log record"""
+    return [("chartparse.warnings", logging.WARNING, str(w.message)) for w in wlist]
 
 
 def warned_tags(logs, tags):
